@@ -73,6 +73,10 @@ type Config struct {
 	DownAsFault bool `json:"down_as_fault,omitempty"`
 	// MoreFaults adds "wipe(i)" (shard restarted on an empty volume) and "flaky(h)" (one failing scrape) to the fault menu
 	MoreFaults bool `json:"more_faults,omitempty"`
+	// Outgrow adds the workload event "outgrow(h)": an assigned target grows beyond the limits (120 series)
+	Outgrow bool `json:"outgrow,omitempty"`
+	// SigTag is appended to the signatures of liveness findings of this configuration
+	SigTag string `json:"sig_tag,omitempty"`
 	// FaultKinds, when set, restricts the per-shard faults to these kinds (and disables "shrink")
 	FaultKinds []string `json:"fault_kinds,omitempty"`
 	// Inflight enables the event "a coordination cycle runs while shard i's Prometheus is in the middle of a scrape"
@@ -91,7 +95,7 @@ func (e Event) String() string {
 	switch e.Kind {
 	case "cycle", "expire", "shrink":
 		return e.Kind
-	case "grow", "add", "remove", "down", "flaky":
+	case "grow", "outgrow", "add", "remove", "down", "flaky":
 		return fmt.Sprintf("%s(%d)", e.Kind, e.H)
 	}
 	return fmt.Sprintf("%s(%d)", e.Kind, e.I)
